@@ -32,7 +32,12 @@ theorem ownership_step {D} (cleared : D) (s : St D) (orig : Nat → List (Act D)
 
 /-- obligation against the regenerated facts: `sessionPool.Put` occurs only in `GetSession` directly before `return nil, …`
     (the object is dropped by the caller), never in a function whose callers keep using the object -/
-def GoodPool : Prop := Oidc.Generated.poolPutOnlyBeforeNilReturn = true
+def GoodPool : Prop := Oidc.Generated.poolPutOnlyBeforeNilReturn = true ∧
+  -- no method calls, while holding a lock of its receiver, a method of the same receiver that acquires one (sync.RWMutex is
+  -- not reentrant: with a writer queued in between, the inner acquisition never returns and every later request hangs)
+  Oidc.Generated.nestedLockCalls = [] ∧
+  -- the periodic housekeeping the stress run executes next to live traffic is the ticker body of startTokenCleanup
+  Oidc.Generated.housekeepingCalls = ["tokenCache", "jwkCache"]
 instance : Decidable GoodPool := by unfold GoodPool; infer_instance
 theorem facts_ok : GoodPool := by decide
 
